@@ -2,7 +2,7 @@
 A = 'src/memory_managers/orig_grid.cc'
 H = 'src/memory_managers/hole_base.h'
 M = 'src/memory.h'
-def job(name, enforce, replace=(), props=('C99',), **kw):
+def job(name, enforce, replace=(), props=('C18', 'C12'), **kw):
     d = dict(name=name, entry='h_' + name, enforce=enforce, replace=list(replace), props=list(props))
     d.update(kw)
     return d
@@ -59,6 +59,6 @@ UNIT = {
     'assumptions': ['INT = int; hole sizes below 2^30'],
     'unverified_surroundings': {'C18': ['orig_grid.cc addToGrid, removeFromGrid, recycleChunk'], 'C12': ['orig_grid.cc addToGrid, removeFromGrid, recycleChunk']},
     'jobs': [
-        job('og_requestChunk', 'original_grid__requestChunk', ST, loops=3, object_bits=12),
+        job('og_requestChunk', 'original_grid__requestChunk', ST, loops=3, object_bits=12, tier='thorough', timeout=7200),      # ~11 min: thorough tier only
     ],
 }
